@@ -27,6 +27,6 @@ theorem conn_sections :
       "connector.request", "responseWriter.Write"] ∧
     Facts.doWriteOrder = ["genFrame", "write", "window"] ∧
     Facts.readLoopShape = ["open", "loop", "close", "reclaim"] ∧
-    Facts.dispatchDefersRecovery = true := by decide
+    Facts.dispatchDefersRecovery = true ∧ Facts.closeOpcodeTakesClosePath = true := by decide
 
 end SourceShape
